@@ -123,6 +123,19 @@ def _t_pd_even(n):
     return ('result', ['pd_even', n], ('pd_even', (n,), {}))
 
 
+def _t_pd_span(d):
+    import re
+    if isinstance(d, (int, float)) and not isinstance(d, bool):
+        sec = float(d)
+    elif isinstance(d, str) and re.fullmatch(r'-?P\d+D', d):
+        sec = float(d.replace('-', '').strip('PD')) * 86400.0 * (-1 if d.startswith('-') else 1)
+    else:
+        return ('invalid', None, None)
+    if not sec > 0:
+        return ('invalid', None, None)
+    return ('result', ['pd_span', sec], ('pd_span', (sec,), {}))
+
+
 def _t_js_list(items):
     if not (isinstance(items, list) and all(isinstance(x, str) for x in items)):
         return ('invalid', None, None)
@@ -148,7 +161,7 @@ TWINS = {
     'typedctor': _t_typedctor, 'raiselib': _t_raiselib, 'pd_pos': _t_pd_pos, '_under': _t_under, 'ns._dotted': _t_dotted,
     'cowrapped': _t_cowrapped, 'js_draft4': _t_js_draft4, 'window': _t_window, 'mutate': _t_mutate, 'broken.vm': _t_broken,
     'odd_defaults': _t_odd_defaults, 'tc_only': _t_tc_only, 'pd_strip': _t_pd_strip, 'view.cm': _t_cm, 'view.sm': _t_sm, 'cnt.bump': _t_bump,
-    'pd_even': _t_pd_even, 'js_list': _t_js_list, 'ctxm_plain': _t_ctxm_plain,
+    'pd_even': _t_pd_even, 'pd_span': _t_pd_span, 'js_list': _t_js_list, 'ctxm_plain': _t_ctxm_plain,
 }
 
 
